@@ -141,6 +141,22 @@ def run(ctx):
     combos = set()
     for prec in "dszc":
         cases = [make_case(rng, k + 1, prec, ctx.quick()) for k in range(N[prec])]
+        # the full option product, systematically, in EVERY precision (the random stream meets a given combination of
+        # storage x scaling outcome x trans x factor reuse in one precision only now and then): EQUILIBRATE, then a second call
+        # with fact = FACTORED reusing equed/R/C/L/U with a fresh B and every trans
+        for stype in ("NC", "NR"):
+            for mode in ("none", "row", "col", "both"):
+                for tr in (0, 1, 2):
+                    c = make_case(rng, len(cases) + 1, prec, True)
+                    while c["n"] < 4 or c["kind"].split("+")[0] != mode:
+                        c = make_case(rng, len(cases) + 1, prec, True)
+                    nr = max(1, c["nrhs"]); ncomp = 2 if prec in "cz" else 1
+                    rnd = c01.f32 if prec in "sc" else (lambda v: v)
+                    c.update(stype=stype, trans=tr, fact=1, nrhs=nr, kind=mode + "+factored")
+                    c["rhs"] = [rnd(gen.val(rng)) for _ in range(c["n"] * nr * ncomp)]
+                    c["rhs2"] = [rnd(gen.val(rng)) for _ in range(c["n"] * nr * ncomp)]
+                    c["trans2"] = (tr + 1 + (len(cases) % 2)) % 3 if mode == "none" else rng.choice([0, 1, 2])
+                    cases.append(c)
         exe = drv.build(ctx, prec, "hooks")
         res = drv.run_grouped(exe, cases, par=max(1, vf.NCPU // 3))
         for c, r in zip(cases, res):
